@@ -96,6 +96,7 @@ type Spec struct {
 	Ghosts    map[string]string // name -> Go type text
 	AllocInits map[string][]*GhostSet // Go type text -> ghost initialisation at allocation
 	Lemmas    []*Lemma
+	Writers   []*WritersRule
 	Rules     []*Rule
 	Order     []string
 }
@@ -141,6 +142,7 @@ var keywords = map[string]bool{
 	"lemma": true, "var": true, "hyp": true, "concl": true, "callassert": true, "nocanary": true,
 	"sweep": true, "note": true, "rule": true, "abstract": true, "free": true, "end": true, "thread": true,
 	"allocbound": true, "results": true, "atreturn": true, "guarded": true, "allocinit": true,
+	"writers": true,
 }
 
 func (sp *Spec) parseFile(path string) error {
@@ -222,6 +224,12 @@ func (sp *Spec) parseFile(path string) error {
 					}
 				}
 			}
+		case "writers":
+			w, err := parseWriters(rc.text, path, rc.line)
+			if err != nil {
+				return err
+			}
+			sp.Writers = append(sp.Writers, w)
 		case "end":
 			cur, curLemma, curRule = nil, nil, nil
 		case "func":
